@@ -19,12 +19,12 @@ template <class T> struct LibTypesE<T, 4> { typedef Matrix44<T> M; typedef Vec4<
 
 struct EigTally
 {
-    long long cases = 0, transitions = 0, diagonal = 0, repeated = 0, indefinite = 0, singular = 0, abs_tie = 0, generic = 0;
+    long long cases = 0, transitions = 0, diagonal = 0, repeated = 0, indefinite = 0, singular = 0, abs_tie = 0, generic = 0, scaled = 0;
     double    w_orth = 0, w_recomp = 0, w_ev = 0, w_vec = 0;
     void merge (const EigTally& o)
     {
         cases += o.cases; transitions += o.transitions; diagonal += o.diagonal; repeated += o.repeated; indefinite += o.indefinite; singular += o.singular;
-        abs_tie += o.abs_tie; generic += o.generic;
+        abs_tie += o.abs_tie; generic += o.generic; scaled += o.scaled;
         w_orth = std::max (w_orth, o.w_orth); w_recomp = std::max (w_recomp, o.w_recomp); w_ev = std::max (w_ev, o.w_ev); w_vec = std::max (w_vec, o.w_vec);
     }
 };
@@ -57,16 +57,29 @@ template <int N> struct SymMat
     }
 };
 
-template <class T, int N> static void checkEig (const SymMat<N>& I, EigTally& t)
+// kexp != 0: the same integer matrix times 2^kexp (exact); eigenvalues and |A|_F scale by the same exact factor and every
+// relation of the statement is relative to |A|, so all of them must hold unchanged (sites get the suffix ".scaled-input").
+// +-40 for float and +-300 for double keep entries, pairwise products and eps-level residues normal numbers.
+template <class T, int N> static void checkEig (const SymMat<N>& I0, EigTally& t, int kexp = 0)
 {
     typedef typename LibTypesE<T, N>::M LM;
     typedef typename LibTypesE<T, N>::V LV;
     const LD          eps = ex::eps<T> ();
+    const std::string sfx = kexp ? ".scaled-input" : "";
     const std::string ty  = LibTypesE<T, N>::name ();
+    struct Scaled { ref::Mat<N> A; LD ev[N], normF, absmax, absmin; bool diagonal, repeated, indefinite, singular, abs_tie; std::string s; std::string str () const { return s; } } I;
+    {
+        const LD sc = ldexpl (1.0L, kexp);
+        for (int i = 0; i < N; ++i) { I.ev[i] = I0.ev[i] * sc; for (int j = 0; j < N; ++j) I.A[i][j] = I0.A[i][j] * sc; }
+        I.normF = I0.normF * sc; I.absmax = I0.absmax * sc; I.absmin = I0.absmin * sc;
+        I.diagonal = I0.diagonal; I.repeated = I0.repeated; I.indefinite = I0.indefinite; I.singular = I0.singular; I.abs_tie = I0.abs_tie;
+        I.s = I0.str () + (kexp ? " * 2^" + std::to_string (kexp) : std::string ());
+    }
     auto in = [&] () { return "T=" + std::string (ref::tname<T> ()) + " A=" + I.str (); };
     LM A0;
-    for (int i = 0; i < N; ++i) for (int j = 0; j < N; ++j) A0[i][j] = (T) I.a[i * N + j];
+    for (int i = 0; i < N; ++i) for (int j = 0; j < N; ++j) A0[i][j] = (T) I.A[i][j];
     ++t.cases;
+    if (kexp) ++t.scaled;
     if (I.diagonal) ++t.diagonal;
     if (I.repeated) ++t.repeated;
     if (I.indefinite) ++t.indefinite;
@@ -88,14 +101,14 @@ template <class T, int N> static void checkEig (const SymMat<N>& I, EigTally& t)
         for (int i = 0; i < N; ++i) { LD d = fabsl (sorted[i] - I.ev[i]); de = (d == d) ? std::max (de, d) : INFINITY; }
         t.w_orth = std::max (t.w_orth, (double) (ov / eps));
         if (I.normF > 0) { t.w_recomp = std::max (t.w_recomp, (double) (rc / (eps * I.normF))); t.w_ev = std::max (t.w_ev, (double) (de / (eps * I.normF))); }
-        if (!(ov <= 32 * eps)) R ().fail ("jacobiEigenSolver(" + ty + ").V-orthonormal", in (), "|V^T V - I| <= 32 eps", ref::fmtE (ov / eps) + " eps; V=" + ref::fmtLib<N> (V));
-        if (!(rc <= 32 * eps * I.normF)) R ().fail ("jacobiEigenSolver(" + ty + ").recompose", in (), "|V diag(S) V^T - A| <= 32 eps |A|_F", ref::fmtE (rc / (eps * std::max (I.normF, (LD) 1e-300L))) + " eps|A|; S=" + fmtVec (S));
-        if (!(de <= 32 * eps * I.normF)) R ().fail ("jacobiEigenSolver(" + ty + ").eigenvalues", in (), "sorted S = exact eigenvalues within 32 eps |A|_F", fmtVec (S));
+        if (!(ov <= 32 * eps)) R ().fail ("jacobiEigenSolver(" + ty + ").V-orthonormal" + sfx, in (), "|V^T V - I| <= 32 eps", ref::fmtE (ov / eps) + " eps; V=" + ref::fmtLib<N> (V));
+        if (!(rc <= 32 * eps * I.normF)) R ().fail ("jacobiEigenSolver(" + ty + ").recompose" + sfx, in (), "|V diag(S) V^T - A| <= 32 eps |A|_F", ref::fmtE (rc / (eps * std::max (I.normF, (LD) 1e-300L))) + " eps|A|; S=" + fmtVec (S));
+        if (!(de <= 32 * eps * I.normF)) R ().fail ("jacobiEigenSolver(" + ty + ").eigenvalues" + sfx, in (), "sorted S = exact eigenvalues within 32 eps |A|_F", fmtVec (S));
         // the explicit-tolerance overload is the same computation
         LM A2 = A0, V2;
         LV S2;
         jacobiEigenSolver (A2, S2, V2, std::numeric_limits<T>::epsilon ());
-        if (!(sameVec (S, S2) && sameMat<N> (V, V2))) R ().fail ("jacobiEigenSolver(" + ty + ").default-tol-vs-explicit-eps", in ());
+        if (!(sameVec (S, S2) && sameMat<N> (V, V2))) R ().fail ("jacobiEigenSolver(" + ty + ").default-tol-vs-explicit-eps" + sfx, in ());
         t.transitions += 4;
     }
     for (int which = 0; which < 2; ++which)
@@ -113,15 +126,15 @@ template <class T, int N> static void checkEig (const SymMat<N>& I, EigTally& t)
         LD want = which ? I.absmax : I.absmin;
         LD tol  = 64 * N * eps * I.normF;
         if (I.normF > 0) t.w_vec = std::max (t.w_vec, (double) (std::max (res, fabsl (fabsl (lam) - want)) / (eps * I.normF)));
-        if (!(fabsl (n2 - 1) <= 32 * eps)) R ().fail (fn + ".unit", in (), "| |v|^2 - 1 | <= 32 eps", ref::fmtE ((n2 - 1) / eps) + " eps; v=" + fmtVec (v));
-        if (!(res <= tol)) R ().fail (fn + ".is-eigenvector", in (), "|A v - lambda v| <= " + ref::fmtE (tol), ref::fmtE (res) + "; v=" + fmtVec (v));
+        if (!(fabsl (n2 - 1) <= 32 * eps)) R ().fail (fn + ".unit" + sfx, in (), "| |v|^2 - 1 | <= 32 eps", ref::fmtE ((n2 - 1) / eps) + " eps; v=" + fmtVec (v));
+        if (!(res <= tol)) R ().fail (fn + ".is-eigenvector" + sfx, in (), "|A v - lambda v| <= " + ref::fmtE (tol), ref::fmtE (res) + "; v=" + fmtVec (v));
         if (!(fabsl (fabsl (lam) - want) <= tol))
-            R ().fail (fn + ".extreme-eigenvalue", in (), std::string (which ? "|lambda| = max|lambda_i| = " : "|lambda| = min|lambda_i| = ") + ref::fmtE (want), "lambda = " + ref::fmtE (lam) + "; v=" + fmtVec (v));
+            R ().fail (fn + ".extreme-eigenvalue" + sfx, in (), std::string (which ? "|lambda| = max|lambda_i| = " : "|lambda| = min|lambda_i| = ") + ref::fmtE (want), "lambda = " + ref::fmtE (lam) + "; v=" + fmtVec (v));
         t.transitions += 3;
     }
 }
 
-template <int N> static bool sweepE (const char* stage, unsigned base, int offset, const std::string& bound)
+template <int N> static bool sweepE (const char* stage, unsigned base, int offset, const std::string& bound, int kf = 0, int kd = 0)
 {
     if (!R ().stage (stage)) return true;
     const int      nfree = N * (N + 1) / 2;
@@ -138,14 +151,33 @@ template <int N> static bool sweepE (const char* stage, unsigned base, int offse
             int       k = 0;
             for (int r = 0; r < N; ++r) for (int c = r; c < N; ++c) { I.a[r * N + c] = d[k]; I.a[c * N + r] = d[k]; ++k; }
             I.finish ();
-            checkEig<float, N> (I, l);
-            checkEig<double, N> (I, l);
+            if (kf == 0)
+            {
+                checkEig<float, N> (I, l);
+                checkEig<double, N> (I, l);
+            }
+            else
+                for (int sg = -1; sg <= 1; sg += 2)
+                {
+                    checkEig<float, N> (I, l, sg * kf);
+                    checkEig<double, N> (I, l, sg * kd);
+                }
         }
         std::lock_guard<std::mutex> g (mu);
         G.merge (l);
     });
     const std::string n = std::to_string (N) + "x" + std::to_string (N);
     R ().add ("states", G.cases / 2); R ().add ("evaluations", G.cases); R ().add ("transitions", G.transitions);
+    if (kf)
+    {
+        R ().cls ("eigen" + n + ".input-scaled-by-2^+-k", G.scaled);
+        R ().note_max ("worst scaled-input eigen " + n + " orthonormality (eps)", G.w_orth);
+        R ().note_max ("worst scaled-input eigen " + n + " recomposition (eps |A|_F)", G.w_recomp);
+        R ().note_max ("worst scaled-input eigen " + n + " eigenvalue error (eps |A|_F)", G.w_ev);
+        R ().note_max ("worst scaled-input min/maxEigenVector " + n + " residual or extremality error (eps |A|_F)", G.w_vec);
+        if (ok) R ().stage_done (bound); else R ().stage_partial (std::to_string (G.cases / 4) + " matrices of: " + bound);
+        return ok;
+    }
     R ().cls ("eigen" + n + ".already-diagonal", G.diagonal);
     R ().cls ("eigen" + n + ".repeated-eigenvalue", G.repeated);
     R ().cls ("eigen" + n + ".indefinite", G.indefinite);
@@ -164,6 +196,8 @@ void stage_eigen ()
 {
     sweepE<3> ("eigen3x3", 5, -2, "all 15625 symmetric 3x3 matrices over L(2) x {float,double}: jacobiEigenSolver (both overloads), minEigenVector, maxEigenVector");
     sweepE<4> ("eigen4x4", 3, -1, "all 59049 symmetric 4x4 matrices over L(1) x {float,double}: jacobiEigenSolver (both overloads), minEigenVector, maxEigenVector");
+    sweepE<3> ("eigen3x3-scaled", 5, -2, "all 15625 symmetric 3x3 matrices over L(2) times 2^+-40 (float) / 2^+-300 (double): jacobiEigenSolver (both overloads), minEigenVector, maxEigenVector", 40, 300);
+    sweepE<4> ("eigen4x4-scaled", 3, -1, "all 59049 symmetric 4x4 matrices over L(1) times 2^+-40 (float) / 2^+-300 (double): jacobiEigenSolver (both overloads), minEigenVector, maxEigenVector", 40, 300);
 }
 
 } // namespace c12
